@@ -36,6 +36,7 @@ func runC02(r *Run) {
 	r.checkFullThenUpdate(P)
 	r.checkFirstApplicable(P, "OperationProcessor.applyFirstValidOperation")
 	r.checkFirstApplicable(P, "OperationProcessor.applyFirstValidCreateOperation")
+	r.checkAdditionalMerge(P)
 	if r.Universal {
 		r.universalSorts(P)
 	}
@@ -387,4 +388,86 @@ func (r *Run) universalSorts(P string) {
 		}
 	}
 	r.R.Floor(P+".universal.sort.floor", "instance floor", n, 3, "sort.* call sites with comparators in subject code")
+}
+
+// checkAdditionalMerge: an operation supplied with the resolution request joins the candidates unless it is an
+// anchored duplicate — an iteration of the merge loop completes without appending only for an operation that has a
+// canonical reference which is found among the references of the *stored anchored* operations (shared by C01, C02).
+func (r *Run) checkAdditionalMerge(P string) {
+	f := r.fn(P, pkgProcessor, "OperationProcessor.applyResolutionOptions")
+	if f == nil {
+		return
+	}
+	ff := r.E.Facts(f, core.Ctx{})
+	id := P + ".additional.merge"
+	rule := "E6 dual: the loop over the additional operations skips an operation only under CanonicalReference ≠ \"\" ∧ hit(canonical references of the published parameter, its reference)"
+	why := "if unpublished operations (empty reference) take part in the duplicate test, the mere presence of any unpublished operation — e.g. a forged one anyone can submit — makes every supplied unpublished operation disappear from resolution"
+	var pubParam *ssa.Parameter
+	for _, p := range f.Params {
+		if p.Name() == "published" {
+			pubParam = p
+		}
+	}
+	if pubParam == nil && len(f.Params) >= 3 {
+		pubParam = f.Params[2]
+	}
+	n, nSkip := 0, 0
+	var bad []string
+	for _, head := range allLoopHeads(f) {
+		// the loop over opts.AdditionalOperations
+		isMerge := false
+		for _, ins := range head.Instrs {
+			if ph, ok := ins.(*ssa.Phi); ok {
+				_ = ph
+			}
+		}
+		for _, b := range f.Blocks {
+			for _, ins := range b.Instrs {
+				if ia, ok := ins.(*ssa.IndexAddr); ok && strings.Contains(ff.TB.Of(ia.X).String(), "AdditionalOperations") && head.Dominates(b) {
+					isMerge = true
+				}
+			}
+		}
+		if !isMerge {
+			continue
+		}
+		for _, ip := range loopIterationPaths(ff, head, 2000) {
+			if ip.Ret != nil {
+				continue
+			}
+			n++
+			appends := false
+			for _, b := range ip.Blocks[1:] {
+				for _, ins := range b.Instrs {
+					if c, ok := ins.(*ssa.Call); ok && isBuiltin(c, "append") {
+						appends = true
+					}
+				}
+			}
+			if appends {
+				continue
+			}
+			nSkip++
+			pf := pathFacts(ff, ip.Blocks)
+			okRef, okHit := false, false
+			for _, fc := range pf {
+				if fc.Kind == "cmp" && fc.Op == "!=" && strings.HasSuffix(fc.A.String(), ".CanonicalReference") && fc.B.Name == `""` {
+					okRef = true
+				}
+				if fc.Kind == "hit" && strings.HasSuffix(fc.B.String(), ".CanonicalReference") {
+					// the map: built from the published parameter alone
+					mt := fc.A
+					if pubParam != nil && core.MatchTerm("getCanonicalMap($"+pubParam.Name()+")", mt, core.Bind{}) {
+						okHit = true
+					} else {
+						bad = append(bad, "duplicate test against "+short(mt.String(), 100))
+					}
+				}
+			}
+			if !okRef || !okHit {
+				bad = append(bad, fmt.Sprintf("an additional operation is dropped at %s without (reference ≠ \"\": %v, found among the published references: %v)", r.P.Pos(firstPos(ip.Blocks[len(ip.Blocks)-2])), okRef, okHit))
+			}
+		}
+	}
+	r.R.Check(n > 0 && len(bad) == 0, id, rule, core.FuncName(f), r.where(f), why, fmt.Sprintf("%d iteration paths, %d skipping, all under the published-duplicate test", n, nSkip), strings.Join(dedupe(bad), "; "))
 }
